@@ -10,10 +10,11 @@ namespace Hive.WP
 open Hive.Conc
 
 def CPc.locked : CPc → Bool
-  | .sdSend _ | .sdBcast | .sdUnlock | .stWait2 | .stUnlock => true
+  | .sdSend _ | .sdUnlockS | .sdUnlockN => true
   | _ => false
+/-- the client owes a `Queue.SignalShutdown` -/
 def CPc.bc : CPc → Bool
-  | .sdSend _ | .sdBcast => true
+  | .sdSend _ | .sdUnlockS | .sdBcast => true
   | _ => false
 def Thr.locked : Thr → Bool
   | .client c => c.pc.locked
@@ -23,15 +24,16 @@ def Thr.bc : Thr → Bool
   | .runner => false
 
 /-- the fields that only client life-cycle steps write -/
-def ctl (s : St) : Bool × Bool × Nat × Bool × Bool :=
-  (s.writer, s.bcastPending, s.sent, s.startRace, s.running)
+def ctl (s : St) : Bool × Nat × Bool :=
+  (s.writer, s.sent, s.running)
 
 theorem ctl_setPhase (s : St) (t : Nat) (ph : Phase) : ctl (setPhase s t ph) = ctl s := by
   unfold setPhase; split <;> rfl
 theorem ctl_setReturned (s : St) (t : Nat) : ctl (setReturned s t) = ctl s := by
   unfold setReturned; split <;> rfl
 
-theorem submit_ctl {p : Params} {s : St} {t : Nat} {r : St × Bool} (hr : r ∈ submitStep p s t) : ctl r.1 = ctl s := by
+theorem submit_ctl {p : Params} {s : St} {t : Nat} {r : St × Bool} (hr : r ∈ submitStep p s t) :
+    ctl r.1 = ctl s ∧ r.1.due = s.due := by
   unfold submitStep at hr
   split at hr
   · simp at hr
@@ -41,66 +43,71 @@ theorem submit_ctl {p : Params} {s : St} {t : Nat} {r : St × Bool} (hr : r ∈ 
       · split at hr
         · simp at hr
         · split at hr <;> (simp at hr; subst hr)
-          · exact ctl_setPhase s t _
-          · exact ctl_setPhase s t _
-      · simp at hr; subst hr; exact ctl_setReturned s t
-      · simp at hr; subst hr; exact ctl_setPhase s t _
+          · constructor
+            · show ctl (setPhase s t _) = _; exact ctl_setPhase s t _
+            · show (setPhase s t _).due = _; unfold setPhase; split <;> rfl
+          · exact ⟨ctl_setPhase s t _, by unfold setPhase; split <;> rfl⟩
+      · simp at hr; subst hr; exact ⟨ctl_setReturned s t, by show (setReturned s t).due = _; unfold setReturned; split <;> rfl⟩
       · split at hr
         · simp at hr
-        · simp at hr; subst hr; exact ctl_setPhase s t _
-      · simp at hr; subst hr; exact ctl_setReturned s t
+        · simp at hr; subst hr; constructor
+          · show ctl (setPhase s t _) = _; exact ctl_setPhase s t _
+          · show (setPhase s t _).due = _; unfold setPhase; split <;> rfl
+      · simp at hr; subst hr; exact ⟨ctl_setReturned s t, by show (setReturned s t).due = _; unfold setReturned; split <;> rfl⟩
 
-theorem disp_ctl {p : Params} {s s' : St} (hs : s' ∈ dispStep p s) : ctl s' = ctl s := by
+theorem disp_ctl {p : Params} {s s' : St} (hs : s' ∈ dispStep p s) : ctl s' = ctl s ∧ s'.due = s.due := by
+  have sp : ∀ t ph, ctl (setPhase s t ph) = ctl s ∧ (setPhase s t ph).due = s.due :=
+    fun t ph => ⟨ctl_setPhase s t ph, by unfold setPhase; split <;> rfl⟩
   unfold dispStep at hs
   split at hs
   · simp at hs
-  · split at hs <;> (simp at hs; try subst hs; try rfl)
-  · split at hs <;> (simp at hs; try subst hs; try rfl)
+  · split at hs <;> (simp at hs; try subst hs; try exact ⟨rfl, rfl⟩)
+  · simp at hs; subst hs; exact ⟨rfl, rfl⟩
   · split at hs
     · simp at hs
     · unfold popOrCond at hs; split at hs
-      · simp at hs; subst hs; rfl
-      · simp at hs; obtain ⟨t, _, rfl⟩ := hs; exact ctl_setPhase s t _
-  · split at hs
-    · simp at hs
-    · split at hs <;> (simp at hs; subst hs; rfl)
-  · simp at hs; subst hs; rfl
+      · simp at hs; subst hs; exact ⟨rfl, rfl⟩
+      · simp at hs; obtain ⟨t, _, rfl⟩ := hs; exact sp t _
+  · split at hs <;> (simp at hs; try subst hs; try exact ⟨rfl, rfl⟩)
+  · split at hs <;> (simp at hs; subst hs; exact ⟨rfl, rfl⟩)
+  · simp at hs; subst hs; exact ⟨rfl, rfl⟩
   · split at hs
     · simp at hs
     · unfold popOrCond at hs; split at hs
-      · simp at hs; subst hs; rfl
-      · simp at hs; obtain ⟨t, _, rfl⟩ := hs; exact ctl_setPhase s t _
+      · simp at hs; subst hs; exact ⟨rfl, rfl⟩
+      · simp at hs; obtain ⟨t, _, rfl⟩ := hs; exact sp t _
   · split at hs
-    · simp at hs; subst hs; exact ctl_setPhase s _ _
+    · simp at hs; subst hs; exact sp _ _
     · simp at hs
-  · split at hs
-    · simp at hs; subst hs; rfl
-    · simp at hs
-  · simp at hs; subst hs; rfl
+  · simp at hs; subst hs; exact ⟨rfl, rfl⟩
 
-theorem w_ctl {p : Params} {s : St} {w : WPc} {r : St × WPc} (hr : r ∈ wStep p s w) : ctl r.1 = ctl s := by
+theorem w_ctl {p : Params} {s : St} {w : WPc} {r : St × WPc} (hr : r ∈ wStep p s w) (hd : w.isSignal = true → 0 < s.due) :
+    ctl r.1 = ctl s ∧ r.1.due + b2n w.isSignal = s.due + b2n r.2.isSignal := by
+  have sp : ∀ t ph, ctl (setPhase s t ph) = ctl s ∧ (setPhase s t ph).due = s.due :=
+    fun t ph => ⟨ctl_setPhase s t ph, by unfold setPhase; split <;> rfl⟩
   cases w with
   | exited => simp [wStep] at hr
-  | sel => simp only [wStep] at hr; split at hr <;> (simp at hr; subst hr; rfl)
+  | sel => simp only [wStep] at hr; split at hr <;> (simp at hr; subst hr; exact ⟨rfl, rfl⟩)
   | sel2 =>
     simp only [wStep, List.mem_append] at hr
     rcases hr with (hr | hr) | hr
     · split at hr
-      · simp at hr; subst hr; rfl
+      · simp at hr; subst hr; exact ⟨rfl, rfl⟩
       · simp at hr
-    · simp only [List.mem_map] at hr; obtain ⟨t, _, rfl⟩ := hr; exact ctl_setPhase s t _
+    · simp only [List.mem_map] at hr; obtain ⟨t, _, rfl⟩ := hr
+      exact ⟨(sp t _).1, by simp [takeRun, WPc.isSignal, (sp t Phase.running).2]⟩
     · split at hr
-      · simp at hr; subst hr; rfl
+      · simp at hr; subst hr; exact ⟨rfl, rfl⟩
       · simp at hr
   | drain =>
     simp only [wStep, List.mem_append] at hr
     rcases hr with hr | hr
     · simp only [List.mem_map] at hr; obtain ⟨t, _, rfl⟩ := hr
       split
-      · exact ctl_setPhase s t _
-      · exact ctl_setPhase s t _
+      · exact ⟨(sp t _).1, by simp [WPc.isSignal, (sp t Phase.cancelling).2]⟩
+      · exact ⟨(sp t _).1, by simp [takeRun, WPc.isSignal, (sp t Phase.running).2]⟩
     · split at hr
-      · simp at hr; subst hr; rfl
+      · simp at hr; subst hr; exact ⟨rfl, rfl⟩
       · simp at hr
   | run t todo sub dr =>
     simp only [wStep] at hr
@@ -108,42 +115,47 @@ theorem w_ctl {p : Params} {s : St} {w : WPc} {r : St × WPc} (hr : r ∈ wStep 
     | some c =>
       simp only [List.mem_map] at hr
       obtain ⟨q, hq, rfl⟩ := hr
-      exact submit_ctl hq
+      obtain ⟨a, b⟩ := submit_ctl hq
+      exact ⟨a, by simp [WPc.isSignal, b]⟩
     | none =>
       cases todo with
-      | cons b rest => simp at hr; subst hr; rfl
+      | cons b rest => simp at hr; subst hr; exact ⟨rfl, rfl⟩
       | nil =>
         simp only at hr
         split at hr
-        · simp at hr; subst hr; exact ctl_setPhase s t _
+        · simp at hr; subst hr; exact ⟨(sp t _).1, by simp [WPc.isSignal, (sp t Phase.ran).2]⟩
         · simp at hr
   | mark t dr =>
     simp only [wStep] at hr
     split at hr
-    · simp at hr; subst hr; exact ctl_setPhase s t _
-    · simp at hr; subst hr; exact ctl_setPhase s t _
+    · simp at hr; subst hr; unfold markDone; split
+      · exact ⟨(sp t _).1, by simp [WPc.isSignal, b2n, (sp t Phase.done).2]⟩
+      · exact ⟨(sp t _).1, by cases dr <;> simp [WPc.isSignal, (sp t Phase.done).2]⟩
+    · simp at hr; subst hr; unfold markDone; split
+      · exact ⟨(sp t _).1, by simp [WPc.isSignal, b2n, (sp t Phase.cancelled).2]⟩
+      · exact ⟨(sp t _).1, by simp [WPc.isSignal, (sp t Phase.cancelled).2]⟩
     · simp at hr
-
-theorem runner_ctl {p : Params} {s s' : St} (hs : s' ∈ runnerStep p s) : ctl s' = ctl s := by
-  unfold runnerStep at hs
-  rcases List.mem_append.mp hs with hs | hs
-  · exact disp_ctl hs
-  · obtain ⟨i, _, hi⟩ := List.mem_flatMap.mp hs
-    cases hw : s.workers[i]? with
-    | none => simp [hw] at hi
-    | some w =>
-      simp only [hw, List.mem_map] at hi
-      obtain ⟨r, hr, rfl⟩ := hi
-      exact w_ctl hr
+  | signal dr =>
+    have := hd rfl
+    simp only [wStep] at hr
+    split at hr
+    · simp at hr
+    · simp at hr; subst hr
+      refine ⟨rfl, ?_⟩
+      cases dr <;> simp [WPc.isSignal, b2n] <;> omega
 
 
 
-/-- Effect of a client step on the lock / broadcast bookkeeping. -/
+theorem no_signal_of_exited {s : St} (h : wg s = 0) : s.workers.countP WPc.isSignal = 0 := by
+  rw [List.countP_eq_zero]; intro w hw
+  have := all_exited_of_wg h w hw; cases w <;> simp [WPc.isExited] at this; simp [WPc.isSignal]
+
+/-- Effect of a client step on the lock / owed-signal bookkeeping. -/
 theorem client_delta {p : Params} {s : St} {c : Client} {r : St × Client} (hr : r ∈ clientStep p s c)
-    (hl : c.pc.locked = true → s.writer = true) (hb : c.pc.bc = true → s.bcastPending = true)
-    (hbw : s.bcastPending = true → s.writer = true) :
+    (hl : c.pc.locked = true → s.writer = true) (hb : c.pc.bc = true → 0 < s.due) :
     b2n r.1.writer + b2n c.pc.locked = b2n s.writer + b2n r.2.pc.locked ∧
-    b2n r.1.bcastPending + b2n c.pc.bc = b2n s.bcastPending + b2n r.2.pc.bc := by
+    r.1.due + b2n c.pc.bc = s.due + b2n r.2.pc.bc ∧
+    r.1.workers.countP WPc.isSignal = s.workers.countP WPc.isSignal := by
   obtain ⟨pc, script⟩ := c
   cases pc
   case idle =>
@@ -154,22 +166,19 @@ theorem client_delta {p : Params} {s : St} {c : Client} {r : St × Client} (hr :
   case sub t =>
     simp only [clientStep, List.mem_map] at hr
     obtain ⟨q, hq, rfl⟩ := hr
-    have := submit_ctl hq
-    simp only [ctl, Prod.mk.injEq] at this
-    obtain ⟨a, b, _⟩ := this
-    cases q.2 <;> simp [a, b, CPc.locked, CPc.bc]
+    obtain ⟨a, b⟩ := submit_ctl hq
+    simp only [ctl, Prod.mk.injEq] at a
+    obtain ⟨a1, _⟩ := a
+    have hw := pres_submitStep_workers hq
+    cases q.2 <;> simp [a1, b, hw, CPc.locked, CPc.bc]
   case sd1 =>
     simp only [clientStep] at hr
     by_cases hw : s.writer = true
     · rw [if_pos hw] at hr; simp at hr
     · rw [if_neg hw] at hr
-      have hbp : s.bcastPending = false := by
-        cases hh : s.bcastPending with
-        | false => rfl
-        | true => exact absurd (hbw hh) hw
       by_cases hrun : s.running = true
       · rw [if_pos hrun] at hr; simp at hr; subst hr
-        simp [CPc.locked, CPc.bc, b2n, hw, hbp]
+        simp [CPc.locked, CPc.bc, b2n, hw]
       · rw [if_neg hrun] at hr; simp at hr; subst hr; simp [CPc.locked, CPc.bc, b2n, hw]
   case sdSend j =>
     simp only [clientStep] at hr
@@ -179,58 +188,58 @@ theorem client_delta {p : Params} {s : St} {c : Client} {r : St × Client} (hr :
       · rw [if_pos hsg] at hr; simp at hr; subst hr; simp [CPc.locked, CPc.bc]
       · rw [if_neg hsg] at hr; simp at hr
     · rw [if_neg hj] at hr; simp at hr; subst hr; simp [CPc.locked, CPc.bc]
-  case sdBcast =>
-    simp [clientStep] at hr; subst hr
-    have := hb rfl
-    simp [CPc.locked, CPc.bc, b2n, this]
-  case sdUnlock =>
+  case sdUnlockS =>
     simp [clientStep] at hr; subst hr
     have := hl rfl
-    refine ⟨by simp [CPc.locked, b2n, this, emit], rfl⟩
-  case st0 =>
+    simp [CPc.locked, CPc.bc, b2n, this]
+  case sdUnlockN =>
+    simp [clientStep] at hr; subst hr
+    have := hl rfl
+    refine ⟨by simp [CPc.locked, b2n, this, emit], rfl, rfl⟩
+  case sdBcast =>
+    have := hb rfl
     simp only [clientStep] at hr
-    by_cases ho : p.oldStart = true
-    · rw [if_pos ho] at hr; simp at hr; subst hr; simp [CPc.locked, CPc.bc]
-    · rw [if_neg ho] at hr
-      by_cases hw : s.writer = true
-      · rw [if_pos hw] at hr; simp at hr
-      · rw [if_neg hw] at hr; simp at hr; subst hr; cases s.running <;> simp [CPc.locked, CPc.bc]
-  case stWait1 =>
-    simp only [clientStep] at hr
-    by_cases hz : wg s = 0
-    · rw [if_pos hz] at hr; simp at hr; subst hr; simp [CPc.locked, CPc.bc]
-    · rw [if_neg hz] at hr; simp at hr
-  case stLock =>
+    by_cases hsh : s.stackHeld = true
+    · rw [if_pos hsh] at hr; simp at hr
+    · rw [if_neg hsh] at hr; simp at hr; subst hr
+      refine ⟨rfl, ?_, rfl⟩
+      simp [CPc.bc, b2n, emit]; omega
+  case stTry =>
     simp only [clientStep] at hr
     by_cases hw : s.writer = true
     · rw [if_pos hw] at hr; simp at hr
-    · rw [if_neg hw] at hr; simp at hr; subst hr
-      cases s.running <;> simp [CPc.locked, CPc.bc, b2n, hw]
-  case stWait2 =>
+    · rw [if_neg hw] at hr
+      by_cases hrun : s.running = true
+      · rw [if_pos hrun] at hr; simp at hr; subst hr; exact ⟨rfl, rfl, rfl⟩
+      · rw [if_neg hrun] at hr
+        by_cases hz : wg s = 0
+        · rw [if_pos hz] at hr; simp at hr; subst hr
+          refine ⟨rfl, rfl, ?_⟩
+          rw [no_signal_of_exited hz]
+          show (List.replicate p.W WPc.sel).countP WPc.isSignal = 0
+          rw [List.countP_replicate]; simp [WPc.isSignal]
+        · rw [if_neg hz] at hr; simp at hr; subst hr; exact ⟨rfl, rfl, rfl⟩
+  case stWait =>
     simp only [clientStep] at hr
     by_cases hz : wg s = 0
-    · rw [if_pos hz] at hr; simp at hr; subst hr; simp [CPc.locked, CPc.bc, spawn]
+    · rw [if_pos hz] at hr; simp at hr; subst hr; exact ⟨rfl, rfl, rfl⟩
     · rw [if_neg hz] at hr; simp at hr
-  case stUnlock =>
-    simp [clientStep] at hr; subst hr
-    have := hl rfl
-    refine ⟨by simp [CPc.locked, b2n, this, emit], rfl⟩
   case wc =>
     simp only [clientStep] at hr
     by_cases hz : wg s = 0
-    · rw [if_pos hz] at hr; simp at hr; subst hr; simp [CPc.locked, CPc.bc, emit]
+    · rw [if_pos hz] at hr; simp at hr; subst hr; exact ⟨rfl, rfl, rfl⟩
     · rw [if_neg hz] at hr; simp at hr
   case wz =>
     simp only [clientStep] at hr
     by_cases hz : s.pending = 0
-    · rw [if_pos hz] at hr; simp at hr; subst hr; simp [CPc.locked, CPc.bc]
+    · rw [if_pos hz] at hr; simp at hr; subst hr; exact ⟨rfl, rfl, rfl⟩
     · rw [if_neg hz] at hr; simp at hr
 
 /-- A client that does not hold the pool lock cannot change the lock-protected bookkeeping while someone
 else holds the lock. -/
 theorem client_unlocked {p : Params} {s : St} {c : Client} {r : St × Client} (hr : r ∈ clientStep p s c)
     (hl : c.pc.locked = false) (hw : s.writer = true) :
-    r.1.sent = s.sent ∧ r.1.running = s.running ∧ r.1.startRace = s.startRace ∧ r.1.workers = s.workers := by
+    r.1.sent = s.sent ∧ r.1.running = s.running := by
   obtain ⟨pc, script⟩ := c
   cases pc <;> simp [CPc.locked] at hl
   case idle =>
@@ -241,39 +250,36 @@ theorem client_unlocked {p : Params} {s : St} {c : Client} {r : St × Client} (h
   case sub t =>
     simp only [clientStep, List.mem_map] at hr
     obtain ⟨q, hq, rfl⟩ := hr
-    have := submit_ctl hq
+    have := (submit_ctl hq).1
     simp only [ctl, Prod.mk.injEq] at this
-    obtain ⟨_, _, a, b, c⟩ := this
-    exact ⟨a, c, b, pres_submitStep_workers hq⟩
+    exact ⟨this.2.1, this.2.2⟩
   case sd1 => simp [clientStep, hw] at hr
-  case st0 =>
+  case sdBcast =>
     simp only [clientStep] at hr
-    by_cases ho : p.oldStart = true
-    · rw [if_pos ho] at hr; simp at hr; subst hr; simp
-    · rw [if_neg ho, if_pos hw] at hr; simp at hr
-  case stWait1 =>
+    split at hr
+    · simp at hr
+    · simp at hr; subst hr; exact ⟨rfl, rfl⟩
+  case stTry => simp [clientStep, hw] at hr
+  case stWait =>
     simp only [clientStep] at hr
-    by_cases hz : wg s = 0
-    · rw [if_pos hz] at hr; simp at hr; subst hr; simp
-    · rw [if_neg hz] at hr; simp at hr
-  case stLock => simp [clientStep, hw] at hr
+    split at hr
+    · simp at hr; subst hr; exact ⟨rfl, rfl⟩
+    · simp at hr
   case wc =>
     simp only [clientStep] at hr
-    by_cases hz : wg s = 0
-    · rw [if_pos hz] at hr; simp at hr; subst hr; simp [emit]
-    · rw [if_neg hz] at hr; simp at hr
+    split at hr
+    · simp at hr; subst hr; exact ⟨rfl, rfl⟩
+    · simp at hr
   case wz =>
     simp only [clientStep] at hr
-    by_cases hz : s.pending = 0
-    · rw [if_pos hz] at hr; simp at hr; subst hr; simp
-    · rw [if_neg hz] at hr; simp at hr
+    split at hr
+    · simp at hr; subst hr; exact ⟨rfl, rfl⟩
+    · simp at hr
 
 /-- What a client step means for the stepping client's own lock-protected knowledge. -/
 theorem client_own {p : Params} {s : St} {c : Client} {r : St × Client} (hr : r ∈ clientStep p s c)
-    (h1 : ∀ j, c.pc = .sdSend j → s.sent = j ∧ s.running = false)
-    (h2 : s.startRace = false → c.pc = .stWait2 → wg s = 0) :
-    (∀ j, r.2.pc = .sdSend j → r.1.sent = j ∧ r.1.running = false) ∧
-    (r.1.startRace = false → r.2.pc = .stWait2 → wg r.1 = 0) := by
+    (h1 : ∀ j, c.pc = .sdSend j → s.sent = j ∧ s.running = false) (hsr : s.running = true → s.sent = 0) :
+    ∀ j, r.2.pc = .sdSend j → r.1.sent = j ∧ r.1.running = false := by
   obtain ⟨pc, script⟩ := c
   cases pc
   case idle =>
@@ -291,7 +297,7 @@ theorem client_own {p : Params} {s : St} {c : Client} {r : St × Client} (hr : r
     · rw [if_pos hw] at hr; simp at hr
     · rw [if_neg hw] at hr
       by_cases hrun : s.running = true
-      · rw [if_pos hrun] at hr; simp at hr; subst hr; simp
+      · rw [if_pos hrun] at hr; simp at hr; subst hr; simp; exact hsr hrun
       · rw [if_neg hrun] at hr; simp at hr; subst hr; simp
   case sdSend j =>
     obtain ⟨a, b⟩ := h1 j rfl
@@ -302,87 +308,42 @@ theorem client_own {p : Params} {s : St} {c : Client} {r : St × Client} (hr : r
       · rw [if_pos hsg] at hr; simp at hr; subst hr; simp [a, b]
       · rw [if_neg hsg] at hr; simp at hr
     · rw [if_neg hj] at hr; simp at hr; subst hr; simp
-  case sdBcast => simp [clientStep] at hr; subst hr; simp
-  case sdUnlock => simp [clientStep] at hr; subst hr; simp
-  case st0 =>
+  case sdUnlockS => simp [clientStep] at hr; subst hr; simp
+  case sdUnlockN => simp [clientStep] at hr; subst hr; simp
+  case sdBcast =>
     simp only [clientStep] at hr
-    by_cases ho : p.oldStart = true
-    · rw [if_pos ho] at hr; simp at hr; subst hr; simp
-    · rw [if_neg ho] at hr
-      by_cases hw : s.writer = true
-      · rw [if_pos hw] at hr; simp at hr
-      · rw [if_neg hw] at hr; simp at hr; subst hr; cases s.running <;> simp
-  case stWait1 =>
+    split at hr
+    · simp at hr
+    · simp at hr; subst hr; simp
+  case stTry =>
     simp only [clientStep] at hr
-    by_cases hz : wg s = 0
-    · rw [if_pos hz] at hr; simp at hr; subst hr; simp
-    · rw [if_neg hz] at hr; simp at hr
-  case stLock =>
+    split at hr
+    · simp at hr
+    · split at hr
+      · simp at hr; subst hr; simp
+      · split at hr <;> (simp at hr; subst hr; simp)
+  case stWait =>
     simp only [clientStep] at hr
-    by_cases hw : s.writer = true
-    · rw [if_pos hw] at hr; simp at hr
-    · rw [if_neg hw] at hr; simp at hr; subst hr
-      cases hrn : s.running
-      · refine ⟨by simp, ?_⟩
-        intro a b
-        show wg s = 0
-        have a' : (s.startRace || (!false && decide (0 < wg s))) = false := a
-        rcases Nat.eq_zero_or_pos (wg s) with z | z
-        · exact z
-        · simp [z] at a'
-      · simp
-  case stWait2 =>
-    simp only [clientStep] at hr
-    by_cases hz : wg s = 0
-    · rw [if_pos hz] at hr; simp at hr; subst hr; simp
-    · rw [if_neg hz] at hr; simp at hr
-  case stUnlock => simp [clientStep] at hr; subst hr; simp
+    split at hr
+    · simp at hr; subst hr; simp
+    · simp at hr
   case wc =>
     simp only [clientStep] at hr
-    by_cases hz : wg s = 0
-    · rw [if_pos hz] at hr; simp at hr; subst hr; simp
-    · rw [if_neg hz] at hr; simp at hr
+    split at hr
+    · simp at hr; subst hr; simp
+    · simp at hr
   case wz =>
     simp only [clientStep] at hr
-    by_cases hz : s.pending = 0
-    · rw [if_pos hz] at hr; simp at hr; subst hr; simp
-    · rw [if_neg hz] at hr; simp at hr
+    split at hr
+    · simp at hr; subst hr; simp
+    · simp at hr
 
 
-
-theorem runner_wg {p : Params} {s s' : St} (h : SInv p s) (hs : s' ∈ runnerStep p s) : wg s' ≤ wg s := by
-  unfold runnerStep at hs
-  rcases List.mem_append.mp hs with hs | hs
-  · have := (pres_dispStep h hs).2; unfold wg; rw [this]; exact Nat.le_refl _
-  · obtain ⟨i, _, hi⟩ := List.mem_flatMap.mp hs
-    cases hw : s.workers[i]? with
-    | none => simp [hw] at hi
-    | some w =>
-      simp only [hw, List.mem_map] at hi
-      obtain ⟨r, hr, rfl⟩ := hi
-      obtain ⟨_, b, c, _⟩ := pres_wStep h (List.mem_of_getElem? hw) hr
-      unfold wg
-      show (r.1.workers.set i r.2).countP _ ≤ _
-      rw [b]
-      have := countP_set_add (fun w => !w.isExited) s.workers i w r.2 hw
-      simp only [c, Bool.not_false, b2n_true] at this
-      have h2 : b2n (!r.2.isExited) ≤ 1 := by cases r.2.isExited <;> simp [b2n]
-      omega
 
 structure TI (p : Params) (c : Cfg St Thr) : Prop where
   w1 : b2n c.1.writer = c.2.countP Thr.locked
-  tb : b2n c.1.bcastPending = c.2.countP Thr.bc
+  du : c.1.due = c.2.countP Thr.bc + c.1.workers.countP WPc.isSignal
   hl : ∀ t ∈ c.2, ∀ cl j, t = .client cl → cl.pc = .sdSend j → c.1.sent = j ∧ c.1.running = false
-  s1 : c.1.startRace = false → ∀ t ∈ c.2, ∀ cl, t = .client cl → cl.pc = .stWait2 → wg c.1 = 0
-
-theorem bc_le_locked (ts : List Thr) : ts.countP Thr.bc ≤ ts.countP Thr.locked := by
-  induction ts with
-  | nil => simp
-  | cons a as ih =>
-    simp only [List.countP_cons]
-    cases a with
-    | runner => simp [Thr.bc, Thr.locked]; exact ih
-    | client c => obtain ⟨pc, sc⟩ := c; cases pc <;> simp [Thr.bc, Thr.locked, CPc.bc, CPc.locked] <;> omega
 
 theorem ti_init (p : Params) (ts : List Thr) (h : ∀ t ∈ ts, t.fresh = true) : TI p (St.init, ts) := by
   have hno : ∀ t ∈ ts, t.locked = false ∧ t.bc = false ∧ ∀ cl, t = .client cl → cl.pc = .idle := by
@@ -394,35 +355,56 @@ theorem ti_init (p : Params) (ts : List Thr) (h : ∀ t ∈ ts, t.fresh = true) 
       obtain ⟨pc, sc⟩ := c
       simp [Thr.fresh] at this; subst this
       exact ⟨rfl, rfl, fun cl e => by cases e; rfl⟩
-  refine ⟨?_, ?_, ?_, ?_⟩
+  refine ⟨?_, ?_, ?_⟩
   · show 0 = _; symm; rw [List.countP_eq_zero]; intro t ht; simp [(hno t ht).1]
-  · show 0 = _; symm; rw [List.countP_eq_zero]; intro t ht; simp [(hno t ht).2.1]
+  · have : ts.countP Thr.bc = 0 := by rw [List.countP_eq_zero]; intro t ht; simp [(hno t ht).2.1]
+    show 0 = ts.countP Thr.bc + 0
+    omega
   · intro t ht cl j e hp; have := (hno t ht).2.2 cl e; rw [this] at hp; cases hp
-  · intro _ t ht cl e hp; have := (hno t ht).2.2 cl e; rw [this] at hp; cases hp
 
-theorem ti_step (p : Params) (a b : Cfg St Thr) (hS : SInv p a.1) (h : TI p a) (hs : Step (sys p) a b) : TI p b := by
+theorem ti_step (p : Params) (a b : Cfg St Thr) (hS : SInv p a.1) (hL : LInv p a.1) (h : TI p a)
+    (hs : Step (sys p) a b) : TI p b := by
   cases hs with
   | mk s pre t post s' t' hmem =>
-    obtain ⟨w1, tb, hl, s1⟩ := h
-    simp only at w1 tb hl s1 hS
-    rw [countP_mid] at w1 tb
+    obtain ⟨w1, du, hl⟩ := h
+    simp only at w1 du hl hS hL
+    rw [countP_mid] at w1 du
     cases t with
     | runner =>
       simp only [sys, List.mem_map] at hmem
       obtain ⟨s'', hs'', heq⟩ := hmem
       cases heq
-      have hc := runner_ctl hs''
+      have key : ctl s' = ctl s ∧ s'.due + s.workers.countP WPc.isSignal = s.due + s'.workers.countP WPc.isSignal := by
+        unfold runnerStep at hs''
+        rcases List.mem_append.mp hs'' with hd | hw
+        · obtain ⟨a1, a2⟩ := disp_ctl hd
+          have e1 := (pres_dispStep hS hd).2
+          exact ⟨a1, by rw [a2, e1]⟩
+        · obtain ⟨i, _, hi⟩ := List.mem_flatMap.mp hw
+          cases hwi : s.workers[i]? with
+          | none => simp [hwi] at hi
+          | some w =>
+            simp only [hwi, List.mem_map] at hi
+            obtain ⟨r, hr, rfl⟩ := hi
+            obtain ⟨_, e1, _, _⟩ := pres_wStep hS (List.mem_of_getElem? hwi) hr
+            have hpos : w.isSignal = true → 0 < s.due := by
+              intro hsig
+              have : 0 < s.workers.countP WPc.isSignal := List.countP_pos_iff.mpr ⟨w, List.mem_of_getElem? hwi, hsig⟩
+              omega
+            obtain ⟨a1, a2⟩ := w_ctl hr hpos
+            refine ⟨a1, ?_⟩
+            show r.1.due + _ = s.due + (r.1.workers.set i r.2).countP WPc.isSignal
+            rw [e1]
+            have c := countP_set_add WPc.isSignal s.workers i w r.2 hwi
+            omega
+      obtain ⟨hc, hdue⟩ := key
       simp only [ctl, Prod.mk.injEq] at hc
-      obtain ⟨c1, c2, c3, c4, c5⟩ := hc
-      have hwg := runner_wg hS hs''
-      refine ⟨?_, ?_, ?_, ?_⟩
+      obtain ⟨c1, c3, c5⟩ := hc
+      refine ⟨?_, ?_, ?_⟩
       · show b2n s'.writer = _; rw [countP_mid, c1]; exact w1
-      · show b2n s'.bcastPending = _; rw [countP_mid, c2]; exact tb
+      · show s'.due = (pre ++ Thr.runner :: post).countP Thr.bc + s'.workers.countP WPc.isSignal
+        rw [countP_mid]; omega
       · intro u hu cl j e hp; show s'.sent = j ∧ s'.running = false; rw [c3, c5]; exact hl u hu cl j e hp
-      · intro hsr u hu cl e hp
-        show wg s' = 0
-        have := s1 (by rw [← c4]; exact hsr) u hu cl e hp
-        omega
     | client c =>
       simp only [sys, List.mem_map] at hmem
       obtain ⟨r, hr, heq⟩ := hmem
@@ -434,25 +416,12 @@ theorem ti_step (p : Params) (a b : Cfg St Thr) (hS : SInv p a.1) (h : TI p a) (
         cases hw : s.writer with
         | true => rfl
         | false => rw [hw] at this; simp at this
-      have hbp : c.pc.bc = true → s.bcastPending = true := by
-        intro hc
-        have : 0 < b2n s.bcastPending := by rw [tb]; simp [Thr.bc, hc]; omega
-        cases hw : s.bcastPending with
-        | true => rfl
-        | false => rw [hw] at this; simp at this
-      have hbw : s.bcastPending = true → s.writer = true := by
-        intro hb
-        have hle := bc_le_locked (pre ++ Thr.client c :: post)
-        rw [countP_mid, countP_mid] at hle
-        have : 0 < b2n s.writer := by rw [w1]; rw [hb] at tb; simp at tb; omega
-        cases hw : s.writer with
-        | true => rfl
-        | false => rw [hw] at this; simp at this
-      obtain ⟨d1, d2⟩ := client_delta hr hlw hbp hbw
-      obtain ⟨o1, o2⟩ := client_own hr (fun j hp => hl _ hin c j rfl hp) (fun hsr hp => s1 hsr _ hin c rfl hp)
-      -- every other thread keeps its knowledge
+      have hbp : c.pc.bc = true → 0 < s.due := by
+        intro hc; rw [du]; simp [Thr.bc, hc]; omega
+      obtain ⟨d1, d2, d3⟩ := client_delta hr hlw hbp
+      have o1 := client_own hr (fun j hp => hl _ hin c j rfl hp) hL.sr
       have others : ∀ u, u ∈ pre ∨ u ∈ post → u.locked = true →
-          r.1.sent = s.sent ∧ r.1.running = s.running ∧ r.1.startRace = s.startRace ∧ r.1.workers = s.workers := by
+          r.1.sent = s.sent ∧ r.1.running = s.running := by
         intro u hu hul
         have hcnt : 1 ≤ pre.countP Thr.locked + post.countP Thr.locked := by
           rcases hu with hu | hu
@@ -469,39 +438,28 @@ theorem ti_step (p : Params) (a b : Cfg St Thr) (hS : SInv p a.1) (h : TI p a) (
             have : b2n s.writer ≤ 1 := by cases s.writer <;> simp
             simp [Thr.locked, hc] at w1; omega
         exact client_unlocked hr hcl hw
-      refine ⟨?_, ?_, ?_, ?_⟩
+      refine ⟨?_, ?_, ?_⟩
       · show b2n r.1.writer = _
         rw [countP_mid]
         have e1 : (if Thr.locked (Thr.client c) = true then 1 else 0) = b2n c.pc.locked := rfl
         have e2 : (if Thr.locked (Thr.client r.2) = true then 1 else 0) = b2n r.2.pc.locked := rfl
         rw [e1] at w1; rw [e2]; omega
-      · show b2n r.1.bcastPending = _
-        rw [countP_mid]
+      · show r.1.due = _
+        rw [countP_mid, d3]
         have e1 : (if Thr.bc (Thr.client c) = true then 1 else 0) = b2n c.pc.bc := rfl
         have e2 : (if Thr.bc (Thr.client r.2) = true then 1 else 0) = b2n r.2.pc.bc := rfl
-        rw [e1] at tb; rw [e2]; omega
+        rw [e1] at du; rw [e2]; omega
       · intro u hu cl j e hp
         show r.1.sent = j ∧ r.1.running = false
         simp only [List.mem_append, List.mem_cons] at hu
         rcases hu with hu | hu | hu
         · subst e
-          obtain ⟨a1, a2, _, _⟩ := others _ (Or.inl hu) (by simp [Thr.locked, hp, CPc.locked])
+          obtain ⟨a1, a2⟩ := others _ (Or.inl hu) (by simp [Thr.locked, hp, CPc.locked])
           rw [a1, a2]; exact hl _ (by simp [hu]) cl j rfl hp
         · subst hu; cases e; exact o1 j hp
         · subst e
-          obtain ⟨a1, a2, _, _⟩ := others _ (Or.inr hu) (by simp [Thr.locked, hp, CPc.locked])
+          obtain ⟨a1, a2⟩ := others _ (Or.inr hu) (by simp [Thr.locked, hp, CPc.locked])
           rw [a1, a2]; exact hl _ (by simp [hu]) cl j rfl hp
-      · intro hsr u hu cl e hp
-        show wg r.1 = 0
-        simp only [List.mem_append, List.mem_cons] at hu
-        rcases hu with hu | hu | hu
-        · subst e
-          obtain ⟨_, _, a3, a4⟩ := others _ (Or.inl hu) (by simp [Thr.locked, hp, CPc.locked])
-          unfold wg; rw [a4]; exact s1 (by rw [← a3]; exact hsr) _ (by simp [hu]) cl rfl hp
-        · subst hu; cases e; exact o2 hsr hp
-        · subst e
-          obtain ⟨_, _, a3, a4⟩ := others _ (Or.inr hu) (by simp [Thr.locked, hp, CPc.locked])
-          unfold wg; rw [a4]; exact s1 (by rw [← a3]; exact hsr) _ (by simp [hu]) cl rfl hp
 
 
 
@@ -572,10 +530,10 @@ theorem submit_rets {p : Params} {s : St} {t : Nat} {r : St × Bool} (hr : r ∈
         · rw [if_pos hw] at hr; simp at hr
         · rw [if_neg hw] at hr
           by_cases hrun : s.running = true
-          · rw [if_pos hrun] at hr; simp at hr; subst hr; exact rets_setPhase s t _
+          · rw [if_pos hrun] at hr; simp at hr; subst hr
+            show rets (setPhase s t _) = _; exact rets_setPhase s t _
           · rw [if_neg hrun] at hr; simp at hr; subst hr; exact rets_setPhase s t _
       case rejected => simp at hr; subst hr; exact rets_setReturned ht
-      case window => simp at hr; subst hr; exact rets_setPhase s t _
       case counted =>
         by_cases hsh : s.stackHeld = true
         · rw [if_pos hsh] at hr; simp at hr
@@ -590,15 +548,14 @@ theorem disp_rets {p : Params} {s s' : St} (hs : s' ∈ dispStep p s) : rets s' 
   split at hs
   · simp at hs
   · split at hs <;> (simp at hs; try subst hs; try rfl)
-  · split at hs <;> (simp at hs; try subst hs; try rfl)
+  · simp at hs; subst hs; rfl
   · split at hs
     · simp at hs
     · unfold popOrCond at hs; split at hs
       · simp at hs; subst hs; rfl
       · simp at hs; obtain ⟨t, _, rfl⟩ := hs; exact rets_setPhase s t _
-  · split at hs
-    · simp at hs
-    · split at hs <;> (simp at hs; subst hs; rfl)
+  · split at hs <;> (simp at hs; try subst hs; try rfl)
+  · split at hs <;> (simp at hs; subst hs; rfl)
   · simp at hs; subst hs; rfl
   · split at hs
     · simp at hs
@@ -607,9 +564,6 @@ theorem disp_rets {p : Params} {s s' : St} (hs : s' ∈ dispStep p s) : rets s' 
       · simp at hs; obtain ⟨t, _, rfl⟩ := hs; exact rets_setPhase s t _
   · split at hs
     · simp at hs; subst hs; exact rets_setPhase s _ _
-    · simp at hs
-  · split at hs
-    · simp at hs; subst hs; rfl
     · simp at hs
   · simp at hs; subst hs; rfl
 
@@ -690,11 +644,18 @@ theorem w_os {p : Params} {s : St} {w : WPc} {r : St × WPc} (hr : r ∈ wStep p
   | mark t dr =>
     simp only [wStep] at hr
     split at hr
-    · simp at hr; subst hr
-      exact same (by simp [rets, emit]; exact rets_setPhase s t _) (by cases dr <;> rfl)
-    · simp at hr; subst hr
-      exact same (by simp [rets, emit]; exact rets_setPhase s t _) rfl
+    · simp at hr; subst hr; unfold markDone; split
+      · exact same (by simp [rets, emit]; exact rets_setPhase s t _) rfl
+      · exact same (by simp [rets, emit]; exact rets_setPhase s t _) (by cases dr <;> rfl)
+    · simp at hr; subst hr; unfold markDone; split
+      · exact same (by simp [rets, emit]; exact rets_setPhase s t _) rfl
+      · exact same (by simp [rets, emit]; exact rets_setPhase s t _) rfl
     · simp at hr
+  | signal dr =>
+    simp only [wStep] at hr
+    split at hr
+    · simp at hr
+    · simp at hr; subst hr; exact same rfl (by cases dr <;> rfl)
 
 theorem client_os {p : Params} {s : St} {c : Client} {r : St × Client} (hr : r ∈ clientStep p s c) (tid : Nat) :
     b2n (Thr.subs tid (.client r.2)) + b2n (unret s tid) = b2n (Thr.subs tid (.client c)) + b2n (unret r.1 tid) ∧
@@ -735,39 +696,37 @@ theorem client_os {p : Params} {s : St} {c : Client} {r : St × Client} (hr : r 
       · simp at hr; subst hr; exact ⟨same rfl rfl, rfl⟩
       · simp at hr
     · simp at hr; subst hr; exact ⟨same rfl rfl, rfl⟩
-  case sdBcast => simp [clientStep] at hr; subst hr; exact ⟨same rfl rfl, rfl⟩
-  case sdUnlock => simp [clientStep] at hr; subst hr; exact ⟨same rfl rfl, rfl⟩
-  case st0 =>
+  case sdUnlockS => simp [clientStep] at hr; subst hr; exact ⟨same rfl rfl, rfl⟩
+  case sdUnlockN => simp [clientStep] at hr; subst hr; exact ⟨same rfl rfl, rfl⟩
+  case sdBcast =>
     simp only [clientStep] at hr
     split at hr
+    · simp at hr
     · simp at hr; subst hr; exact ⟨same rfl rfl, rfl⟩
-    · split at hr
-      · simp at hr
-      · simp at hr; subst hr; exact ⟨same rfl (by cases s.running <;> rfl), rfl⟩
-  case stWait1 =>
+  case stTry =>
+    simp only [clientStep] at hr
+    by_cases hw : s.writer = true
+    · rw [if_pos hw] at hr; simp at hr
+    · rw [if_neg hw] at hr
+      by_cases hrun : s.running = true
+      · rw [if_pos hrun] at hr; simp at hr; subst hr; exact ⟨same rfl rfl, rfl⟩
+      · rw [if_neg hrun] at hr
+        by_cases hz : wg s = 0
+        · rw [if_pos hz] at hr; simp at hr; subst hr
+          refine ⟨same rfl rfl, ?_⟩
+          have hall := all_exited_of_wg hz
+          have h0 : s.workers.countP (WPc.subs tid) = 0 := by
+            rw [List.countP_eq_zero]; intro w hw
+            have := hall w hw; cases w <;> simp [WPc.isExited] at this; simp [WPc.subs]
+          rw [h0]
+          show (List.replicate p.W WPc.sel).countP (WPc.subs tid) = 0
+          rw [List.countP_replicate]; simp [WPc.subs]
+        · rw [if_neg hz] at hr; simp at hr; subst hr; exact ⟨same rfl rfl, rfl⟩
+  case stWait =>
     simp only [clientStep] at hr
     split at hr
     · simp at hr; subst hr; exact ⟨same rfl rfl, rfl⟩
     · simp at hr
-  case stLock =>
-    simp only [clientStep] at hr
-    split at hr
-    · simp at hr
-    · simp at hr; subst hr; exact ⟨same rfl (by cases s.running <;> rfl), rfl⟩
-  case stWait2 =>
-    simp only [clientStep] at hr
-    by_cases hz : wg s = 0
-    · rw [if_pos hz] at hr; simp at hr; subst hr
-      refine ⟨same rfl rfl, ?_⟩
-      have hall := all_exited_of_wg hz
-      have h0 : s.workers.countP (WPc.subs tid) = 0 := by
-        rw [List.countP_eq_zero]; intro w hw
-        have := hall w hw; cases w <;> simp [WPc.isExited] at this; simp [WPc.subs]
-      rw [h0]
-      show (List.replicate p.W WPc.sel).countP (WPc.subs tid) = 0
-      rw [List.countP_replicate]; simp [WPc.subs]
-    · rw [if_neg hz] at hr; simp at hr
-  case stUnlock => simp [clientStep] at hr; subst hr; exact ⟨same rfl rfl, rfl⟩
   case wc =>
     simp only [clientStep] at hr
     split at hr
@@ -835,6 +794,8 @@ theorem os_step (p : Params) (a b : Cfg St Thr) (hS : SInv p a.1) (h : OS a) (hs
       have a2 : (if Thr.subs tid (Thr.client r.2) = true then 1 else 0) = b2n (Thr.subs tid (Thr.client r.2)) := rfl
       rw [a1] at h0; rw [a2]
       omega
+
+
 
 
 end Hive.WP
